@@ -21,7 +21,7 @@ def run(tier):
                           mc_depth_quick=6, mc_depth_thorough=8,
                           profile={"wake": 24, "req": 14, "set": 22, "child": 14, "pres": 12, "garbage": 2, "invalid": 3,
                                    "fwcfg": 1, "fwreq": 1, "otherint": 2},
-                          nontrivial=_burst_or_desired)
+                          scripts=gwfocus.falsy_scripts(), nontrivial=_burst_or_desired)
     return chk.run()
 
 
